@@ -146,3 +146,20 @@ func normEq(a, b reflect.Value) bool {
 	}
 	return reflect.DeepEqual(a.Interface(), b.Interface())
 }
+
+// Scribble overwrites the byte-array memory of rows the harness owns. Called
+// right after the rows were handed to a WriteRows: a writer that kept
+// references to the caller's memory instead of copying then holds garbage.
+func Scribble(rows []parquet.Row) {
+	for _, row := range rows {
+		for _, v := range row {
+			if v.IsNull() || (v.Kind() != parquet.ByteArray && v.Kind() != parquet.FixedLenByteArray) {
+				continue
+			}
+			b := v.ByteArray()
+			for i := range b {
+				b[i] ^= 0xA5
+			}
+		}
+	}
+}
